@@ -5,6 +5,7 @@ import (
 	"crypto/tls"
 	"errors"
 	"io"
+	"log"
 	"net"
 	"net/http"
 	"net/http/httptest"
@@ -48,6 +49,7 @@ type h2ConnKey struct{}
 type h2Conn struct {
 	id int64
 	c  net.Conn
+	hs atomic.Int64 // index (since Reset) of the handshake made on this connection
 }
 
 // H2 is a recording TLS target that negotiates HTTP/2 by ALPN (or, built with h2 = false, only HTTP/1.1) whose script
@@ -59,7 +61,7 @@ type H2 struct {
 	mu       sync.Mutex
 	recs     []Rec
 	hs       []string // outcome of every handshake since Reset, in order
-	script   func(seq int, r *Rec, handshakes int) H2Resp
+	script   func(seq int, r *Rec, hs int) H2Resp
 	hsScript func(k int) string
 	connID   atomic.Int64
 }
@@ -71,9 +73,11 @@ func NewH2(h2 bool) *H2 {
 	srv := httptest.NewUnstartedServer(http.HandlerFunc(h.handle))
 	srv.EnableHTTP2 = h2
 	srv.Config.ConnContext = func(ctx context.Context, c net.Conn) context.Context {
-		return context.WithValue(ctx, h2ConnKey{}, &h2Conn{id: h.connID.Add(1), c: c})
+		hc := &h2Conn{id: h.connID.Add(1), c: c}
+		hc.hs.Store(-1)
+		return context.WithValue(ctx, h2ConnKey{}, hc)
 	}
-	srv.Config.ErrorLog = nil
+	srv.Config.ErrorLog = log.New(io.Discard, "", 0) // scripted handshake failures are not news
 	srv.Config.IdleTimeout = 0
 	srv.TLS = &tls.Config{GetConfigForClient: h.configForClient}
 	if !h2 {
@@ -93,6 +97,10 @@ func (h *H2) configForClient(hello *tls.ClientHelloInfo) (*tls.Config, error) {
 	}
 	h.hs = append(h.hs, kind)
 	h.mu.Unlock()
+	// net/http hands the connection's context (ConnContext) to the handshake
+	if hc, ok := hello.Context().Value(h2ConnKey{}).(*h2Conn); ok {
+		hc.hs.Store(int64(k))
+	}
 	switch kind {
 	case HsInternalError:
 		return nil, errors.New("scripted: tls terminator sheds load") // alert 80 internal_error
@@ -115,8 +123,8 @@ func (h *H2) Close() { h.Srv.Close() }
 
 // Reset forgets records and handshake history and installs the scripts: hsScript names the outcome of the k-th
 // handshake since Reset (nil or HsOK = succeeds), script the answer to a request (nil = 200 "ok"); script also gets
-// the number of handshakes started so far.
-func (h *H2) Reset(hsScript func(k int) string, script func(seq int, r *Rec, handshakes int) H2Resp) {
+// the index hs of the handshake that set up the connection the request arrived on (-1 if unknown).
+func (h *H2) Reset(hsScript func(k int) string, script func(seq int, r *Rec, hs int) H2Resp) {
 	h.mu.Lock()
 	h.recs = nil
 	h.hs = nil
@@ -150,11 +158,14 @@ func (h *H2) handle(w http.ResponseWriter, r *http.Request) {
 	rec.Seq = len(h.recs)
 	h.recs = append(h.recs, rec)
 	script := h.script
-	nhs := len(h.hs)
 	h.mu.Unlock()
+	hs := -1
+	if hc != nil {
+		hs = int(hc.hs.Load())
+	}
 	resp := H2Resp{Resp: Resp{Status: 200, Body: []byte("ok")}}
 	if script != nil {
-		resp = script(rec.Seq, &rec, nhs)
+		resp = script(rec.Seq, &rec, hs)
 	}
 	if resp.DelayMs > 0 {
 		time.Sleep(time.Duration(resp.DelayMs) * time.Millisecond)
